@@ -1,8 +1,8 @@
 (* C17 — executable model of the sub-filesystem view (pkg/apk/fs/sub.go, SubFS;
    what memFS.Sub / tarfs memFS.Sub / apkfs.Sub return): every method joins its
-   name to the root with filepath.Join(s.Root, name) and calls the parent — with
-   two exceptions the code has today: Symlink and Link pass BOTH names on as they
-   are.  Files returned by OpenFile / Create are the parent's files, so the
+   name to the root with filepath.Join(s.Root, name) and calls the parent (since
+   fix 44061d3 Symlink and Link too: Symlink joins the new name and keeps the
+   target as given, Link joins both names).  Files returned by OpenFile / Create are the parent's files, so the
    handle operations go through unchanged.  No proofs in this file.
 
    The root is a non-empty string (Sub returns the parent itself for "."), kept
@@ -24,8 +24,8 @@ Definition sub_op (root : path) (o : op) : op :=
   | OpenFile p fl m => OpenFile (j p) fl m | Create p => Create (j p)
   | ReadFile p => ReadFile (j p) | WriteFile p b m => WriteFile (j p) b m
   | ReadDir p => ReadDir (j p) | Stat p => Stat (j p) | Lstat p => Lstat (j p)
-  | Symlink t p => Symlink t p                      (* s.FS.Symlink(oldname, newname) *)
-  | Link old new => Link old new                    (* s.FS.Link(oldname, newname) *)
+  | Symlink t p => Symlink t (j p)                  (* the target is kept as given *)
+  | Link old new => Link (j old) (j new)
   | Readlink p => Readlink (j p) | Remove p => Remove (j p)
   | Chmod p m => Chmod (j p) m | Chown p u g => Chown (j p) u g | Chtimes p t => Chtimes (j p) t
   | Mknod p m dv => Mknod (j p) m dv | Readnod p => Readnod (j p)
@@ -46,15 +46,15 @@ Definition mixed_step (b : backend) (root : path) (s : st) (via : bool) (o : op)
 Definition keepc (c : string) : bool := negb (String.eqb c "" || String.eqb c ".").
 Definition no_dotdot (p : path) : bool := forallb (fun c => negb (String.eqb c "..")) p.
 
-(* the names of an operation that SubFS joins to its root (Symlink / Link: none) *)
+(* the names of an operation that SubFS joins to its root (a link's target is not one) *)
 Definition sub_paths (o : op) : list path :=
   match o with
   | Mkdir p _ | MkdirAll p _ | OpenFile p _ _ | Create p | ReadFile p | WriteFile p _ _ | ReadDir p | Stat p | Lstat p
-  | Readlink p | Remove p | Chmod p _ | Chown p _ _ | Chtimes p _ | Mknod p _ _ | Readnod p
+  | Symlink _ p | Readlink p | Remove p | Chmod p _ | Chown p _ _ | Chtimes p _ | Mknod p _ _ | Readnod p
   | SetXattr p _ _ | GetXattr p _ | RemoveXattr p _ | ListXattrs p => [p]
-  | _ => []
+  | Link old new => [old; new]
+  | Read _ _ | ReadAt _ _ _ | Write _ _ | Seek _ _ _ | Close _ => []
   end.
-Definition sub_joined (o : op) : bool := match o with Symlink _ _ | Link _ _ => false | _ => true end.
 
 (* the operation at root/name *)
 Definition at_root (root : path) (o : op) : op :=
